@@ -147,3 +147,305 @@ theorem colIdx_loc :
     colIdx locCols "z" = some 2 := by decide
 
 end NmlVerif.Hdf5
+
+/-! ## chemical projections -/
+
+namespace NmlVerif.Hdf5
+set_option linter.unusedSimpArgs false
+
+theorem trunc_zero : trunc 0 = 0 := by decide
+
+structure ConnExact (r : Rat → Rat) (c : Conn) : Prop where
+  pre : Exact r c.pre.idx
+  post : Exact r c.post.idx
+  preSeg : Exact r c.preSeg
+  postSeg : Exact r c.postSeg
+
+def NoSF (c : Conn) : Prop := c.preSeg = 0 ∧ c.postSeg = 0 ∧ c.preFrac = 1/2 ∧ c.postFrac = 1/2
+
+/-- what the parser reads from a row, given that the writer wrote weight `w` and delay `d` (already rounded) -/
+def rowOf (r : Rat → Rat) (id : Int) (c : Conn) (w d : Rat) : RowD :=
+  ⟨id, c.pre.idx, c.post.idx, c.preSeg, c.postSeg, r c.preFrac, r c.postFrac, w, d⟩
+
+theorem decode_connRow (cfg : Cfg) (hh : cfg.r (1/2) = 1/2) (h1 : cfg.r 1 = 1) (h0 : cfg.r 0 = 0)
+    (hu : cfg.unweighted = 1) (sf wd : Bool) (i : Nat) (c : Conn) (hx : ConnExact cfg.r c)
+    (hsf : sf = false → NoSF c) :
+    decodeConnRow cfg (projCols sf wd) i (connRow cfg sf wd c) = .ok (rowOf cfg.r i c (cfg.r 1) (cfg.r 0)) := by
+  obtain ⟨e1, e2, e3, e4, e5, e6, e7, e8, e9⟩ := colIdx_proj sf wd
+  have t1 := trunc_exact hx.pre
+  have t2 := trunc_exact hx.post
+  have t3 := trunc_exact hx.preSeg
+  have t4 := trunc_exact hx.postSeg
+  unfold decodeConnRow
+  rw [e1, e2, e3, e4, e5, e6, e7, e8, e9]
+  cases sf <;> cases wd
+  · obtain ⟨a, b, c', d⟩ := hsf rfl
+    simp [rowOf, connRow, sfCells, cell, cellOr, cellReq, bind, Except.bind, pure, Except.pure, t1, t2, a, b, c', d, hh, h1, h0, trunc_zero]
+  · obtain ⟨a, b, c', d⟩ := hsf rfl
+    simp [rowOf, connRow, sfCells, cell, cellOr, cellReq, bind, Except.bind, pure, Except.pure, t1, t2, a, b, c', d, hh, hu, trunc_zero]
+  · simp [rowOf, connRow, sfCells, cell, cellOr, cellReq, bind, Except.bind, pure, Except.pure, t1, t2, t3, t4, h1, h0]
+  · simp [rowOf, connRow, sfCells, cell, cellOr, cellReq, bind, Except.bind, pure, Except.pure, t1, t2, t3, t4, hu]
+
+theorem decode_connWDRow (cfg : Cfg) (hh : cfg.r (1/2) = 1/2)
+    (sf : Bool) (i : Nat) (c : Conn) (w d : Rat) (hx : ConnExact cfg.r c)
+    (hsf : sf = false → NoSF c) (hw : c.weight = some w) (hd : delayMs c.delay = .ok d) :
+    ∃ row, connWDRow cfg sf c = .ok row ∧
+      decodeConnRow cfg (projCols sf true) i row = .ok (rowOf cfg.r i c (cfg.r w) (cfg.r d)) := by
+  obtain ⟨e1, e2, e3, e4, e5, e6, e7, e8, e9⟩ := colIdx_proj sf true
+  have t1 := trunc_exact hx.pre
+  have t2 := trunc_exact hx.post
+  have t3 := trunc_exact hx.preSeg
+  have t4 := trunc_exact hx.postSeg
+  refine ⟨[cfg.r c.pre.idx, cfg.r c.post.idx] ++ (if sf then sfCells cfg c else []) ++ [cfg.r w, cfg.r d],
+    by simp only [connWDRow, hw, hd], ?_⟩
+  unfold decodeConnRow
+  rw [e1, e2, e3, e4, e5, e6, e7, e8, e9]
+  cases sf
+  · obtain ⟨a, b, c', d'⟩ := hsf rfl
+    simp [rowOf, sfCells, cell, cellOr, cellReq, bind, Except.bind, pure, Except.pure, t1, t2, a, b, c', d', hh, trunc_zero]
+  · simp [rowOf, sfCells, cell, cellOr, cellReq, bind, Except.bind, pure, Except.pure, t1, t2, t3, t4]
+end NmlVerif.Hdf5
+
+namespace NmlVerif.Hdf5
+set_option linter.unusedSimpArgs false
+
+/-- the population named inside the path is the projection's / input list's own (bare indices always are) -/
+def RefOK (pop : String) (ref : CellRef) : Prop := endOf pop ref = (pop, ref.idx)
+
+theorem endOf_pathFor (dflt : String) (p : Pop) (i : Int) : endOf dflt (pathFor p i) = (p.id, i) := by
+  unfold pathFor; cases p.typ <;> rfl
+
+theorem findPop_id {pops : List Pop} {id : String} {p : Pop} (h : findPop pops id = .ok p) : p.id = id := by
+  unfold findPop at h
+  cases hf : pops.find? (fun p => p.id = id) with
+  | none => rw [hf] at h; cases h
+  | some q =>
+    rw [hf] at h; cases h
+    have := List.find?_some hf
+    simpa using this
+
+def dval (d : Delay) : Rat :=
+  match d.u with
+  | .ms => d.v
+  | .s => d.v * 1000
+  | .us => 0
+
+theorem delayMs_ok {d : Delay} (h : d.u ≠ .us) : delayMs d = .ok (dval d) ∧ dval d = delayMsSem d := by
+  unfold delayMs dval delayMsSem
+  cases hu : d.u <;> simp_all
+
+theorem noSF_of_hasSF {l : List Conn} (h : hasSF l = false) : ∀ c ∈ l, NoSF c := by
+  intro c hc
+  unfold hasSF at h
+  have := (List.any_eq_false.mp h) c hc
+  simp only [NoSF]
+  simp at this
+  exact ⟨this.1.1.1, this.1.1.2, this.1.2, this.2⟩
+
+structure ProjOK (r : Rat → Rat) (p : Proj) : Prop where
+  exact : ∀ c ∈ p.conns ++ p.connWDs, ConnExact r c
+  refs : ∀ c ∈ p.conns ++ p.connWDs, RefOK p.pre c.pre ∧ RefOK p.post c.post
+  chem : ∀ c ∈ p.conns ++ p.connWDs, c.syn = "" ∧ c.preComp = ""
+  plain : ∀ c ∈ p.conns, c.weight = none ∧ c.delay = ⟨0, .ms⟩
+  wd : ∀ c ∈ p.connWDs, (∃ w, c.weight = some w) ∧ c.delay.u ≠ .us
+
+/-- the row the writer produces for a `<connectionWD>` whose weight is set and whose delay is in ms or s -/
+def wdRow (cfg : Cfg) (sf : Bool) (c : Conn) : List Rat :=
+  [cfg.r c.pre.idx, cfg.r c.post.idx] ++ (if sf then sfCells cfg c else []) ++ [cfg.r (c.weight.getD 0), cfg.r (dval c.delay)]
+
+theorem connWDRow_eq (cfg : Cfg) (sf : Bool) (c : Conn) (hw : ∃ w, c.weight = some w) (hd : c.delay.u ≠ .us) :
+    connWDRow cfg sf c = .ok (wdRow cfg sf c) := by
+  obtain ⟨w, hw⟩ := hw
+  simp only [connWDRow, hw, (delayMs_ok hd).1, wdRow, Option.getD_some]
+
+end NmlVerif.Hdf5
+
+namespace NmlVerif.Hdf5
+set_option linter.unusedSimpArgs false
+
+theorem projHdr_chem (cfg : Cfg) (p : Proj) :
+    projHdr cfg (projAttrs p.id "projection" p.pre p.post ++ [("synapse", .str p.syn)]) =
+      .ok ⟨p.id, "projection", p.pre, p.post, p.syn, ""⟩ := by
+  simp [projHdr, strAttr, lookupAttr, projAttrs]
+
+theorem posGt_wd (sf wd : Bool) :
+    (posGt (colIdx (projCols sf wd) "weight") || posGt (colIdx (projCols sf wd) "delay")) = wd := by
+  cases sf <;> cases wd <;> decide
+
+end NmlVerif.Hdf5
+
+namespace NmlVerif.Hdf5
+set_option linter.unusedSimpArgs false
+
+def sfOf (p : Proj) : Bool := hasSF p.conns || hasSF p.connWDs
+def wdOf (p : Proj) : Bool := !p.connWDs.isEmpty
+def encRows (cfg : Cfg) (p : Proj) : List (List Rat) :=
+  p.conns.map (connRow cfg (sfOf p) (wdOf p)) ++ p.connWDs.map (wdRow cfg (sfOf p))
+
+theorem encodeProj_eq (cfg : Cfg) (p : Proj) (hok : ProjOK cfg.r p) :
+    encodeProj cfg p = .ok ⟨projLeafName p.id, projAttrs p.id "projection" p.pre p.post ++ [("synapse", .str p.syn)],
+      if (encRows cfg p).isEmpty then [] else [⟨p.id, projCols (sfOf p) (wdOf p), encRows cfg p⟩]⟩ := by
+  unfold encodeProj
+  have := mapE_ok (f := connWDRow cfg (sfOf p)) (g := wdRow cfg (sfOf p)) p.connWDs
+    (fun c hc => connWDRow_eq cfg _ c (hok.wd c hc).1 (hok.wd c hc).2)
+  simp only [sfOf] at this
+  simp only [this, encRows, sfOf, wdOf]
+  rfl
+
+def decRows (cfg : Cfg) (p : Proj) : List RowD :=
+  zipIdx (fun i c => rowOf cfg.r (i : Nat) c (cfg.r 1) (cfg.r 0)) 0 p.conns ++
+  zipIdx (fun i c => rowOf cfg.r (i : Nat) c (cfg.r (c.weight.getD 0)) (cfg.r (dval c.delay))) (0 + (p.conns.map (connRow cfg (sfOf p) (wdOf p))).length) p.connWDs
+
+theorem decode_encRows (cfg : Cfg) (hh : cfg.r (1/2) = 1/2) (h1 : cfg.r 1 = 1) (h0 : cfg.r 0 = 0)
+    (hu : cfg.unweighted = 1) (p : Proj) (hok : ProjOK cfg.r p) :
+    mapIdxE (decodeConnRow cfg (projCols (sfOf p) (wdOf p))) 0 (encRows cfg p) = .ok (decRows cfg p) := by
+  have hns : sfOf p = false → ∀ c ∈ p.conns ++ p.connWDs, NoSF c := by
+    intro h c hc
+    simp only [sfOf, Bool.or_eq_false_iff] at h
+    rcases List.mem_append.mp hc with hc | hc
+    · exact noSF_of_hasSF h.1 c hc
+    · exact noSF_of_hasSF h.2 c hc
+  unfold encRows decRows
+  apply mapIdxE_append_ok
+  · apply mapIdxE_map_ok
+    intro i c hc
+    exact decode_connRow cfg hh h1 h0 hu _ _ i c (hok.exact c (by simp [hc])) (fun h => hns h c (by simp [hc]))
+  · apply mapIdxE_map_ok
+    intro i c hc
+    have hwd : wdOf p = true := by
+      simp only [wdOf, Bool.not_eq_eq_eq_not, Bool.not_true, List.isEmpty_eq_false_iff]
+      intro h; rw [h] at hc; cases hc
+    obtain ⟨⟨w, hw⟩, hd⟩ := hok.wd c hc
+    obtain ⟨row, hrow, hdec⟩ := decode_connWDRow cfg hh (sfOf p) i c w (dval c.delay)
+      (hok.exact c (by simp [hc])) (fun h => hns h c (by simp [hc])) hw (delayMs_ok hd).1
+    rw [connWDRow_eq cfg _ c ⟨w, hw⟩ hd] at hrow
+    cases hrow
+    rw [hwd, hdec, hw]; rfl
+
+end NmlVerif.Hdf5
+
+namespace NmlVerif.Hdf5
+set_option linter.unusedSimpArgs false
+
+theorem getById_mem {top : List Comp} {id : String} {c : Comp} (h : getById top id = some c) : c ∈ top := by
+  unfold getById at h
+  split at h
+  · cases h
+  · exact List.mem_of_find?_eq_some h
+
+theorem mem_zipIdx {α β : Type} {g : Nat → α → β} {b : β} :
+    ∀ (n : Nat) (l : List α), b ∈ zipIdx g n l → ∃ i a, a ∈ l ∧ b = g i a
+  | _, [], h => by cases h
+  | n, a :: as, h => by
+    simp only [zipIdx, List.mem_cons] at h
+    rcases h with h | h
+    · exact ⟨n, a, by simp, h⟩
+    · obtain ⟨i, a', ha', hb⟩ := mem_zipIdx (n + 1) as h
+      exact ⟨i, a', by simp [ha'], hb⟩
+
+theorem semConn_built (r : Rat → Rat) (withId : Bool) (pre post : String) (prePop postPop : Pop)
+    (hp : prePop.id = pre) (hq : postPop.id = post) (i : Int) (c : Conn) (wopt : Option Rat) (del : Delay)
+    (syn preComp : String) (hid : withId = true → i = c.id)
+    (hr : RefOK pre c.pre ∧ RefOK post c.post) (hs : syn = c.syn ∧ preComp = c.preComp)
+    (hw : wopt.getD 1 = r (c.weight.getD 1)) (hd : delayMsSem del = r (delayMsSem c.delay)) :
+    semConn withId pre post
+      { id := i, pre := pathFor prePop c.pre.idx, post := pathFor postPop c.post.idx,
+          preSeg := c.preSeg, postSeg := c.postSeg, preFrac := r c.preFrac, postFrac := r c.postFrac,
+          weight := wopt, delay := del, syn := syn, preComp := preComp } =
+      rConn r (semConn withId pre post c) := by
+  have e1 : endOf pre c.pre = (pre, c.pre.idx) := hr.1
+  have e2 : endOf post c.post = (post, c.post.idx) := hr.2
+  cases withId
+  · simp [semConn, rConn, endOf_pathFor, hp, hq, e1, e2, hs.1, hs.2, hw, hd]
+  · simp [semConn, rConn, endOf_pathFor, hp, hq, e1, e2, hs.1, hs.2, hw, hd, hid rfl]
+
+theorem decodeProjBody_nil_chem (cfg : Cfg) (top : List Comp) (pops : List Pop) (h : PHdr) (ht : h.typ = "projection") :
+    decodeProjBody cfg top pops h [] = .ok (.proj { id := h.id, pre := h.pre, post := h.post, syn := h.syn }, []) := by
+  simp only [decodeProjBody, ht, if_true]
+
+theorem decodeProjBody_chem (cfg : Cfg) (top : List Comp) (pops : List Pop) (h : PHdr) (a : Arr) (rows : List RowD)
+    (it : Item) (ht : h.typ = "projection") (hm : mapIdxE (decodeConnRow cfg a.cols) 0 a.rows = .ok rows)
+    (hc : chemItem h pops (posGt (colIdx a.cols "weight") || posGt (colIdx a.cols "delay")) rows = .ok it) :
+    decodeProjBody cfg top pops h [a] =
+      .ok (it, [getById top h.syn, if h.preSyn.length > 0 then getById top h.preSyn else none]) := by
+  simp only [decodeProjBody, hm, ht, if_true, hc]
+
+theorem proj_roundtrip (cfg : Cfg) (hh : cfg.r (1/2) = 1/2) (h1 : cfg.r 1 = 1) (h0 : cfg.r 0 = 0)
+    (hu : cfg.unweighted = 1) (top : List Comp) (pops : List Pop) (p : Proj) (prePop postPop : Pop)
+    (hpre : findPop pops p.pre = .ok prePop) (hpost : findPop pops p.post = .ok postPop) (hok : ProjOK cfg.r p) :
+    ∃ leaf p' objs, encodeProj cfg p = .ok leaf ∧ leaf.name = projLeafName p.id ∧
+      decodeProjLeaf cfg top pops leaf = .ok (.proj p', objs) ∧ (∀ c, some c ∈ objs → c ∈ top) ∧
+      semProj p' = rProj cfg.r (semProj p) := by
+  rw [encodeProj_eq cfg p hok]
+  cases hemp : (encRows cfg p).isEmpty
+  case true =>
+    have hc : p.conns = [] ∧ p.connWDs = [] := by simpa [encRows] using hemp
+    refine ⟨_, { id := p.id, pre := p.pre, post := p.post, syn := p.syn }, [], rfl, rfl, ?_, by simp, ?_⟩
+    · simp only [decodeProjLeaf, projHdr_chem, if_true]
+      exact decodeProjBody_nil_chem cfg top pops _ rfl
+    · simp [semProj, rProj, hc.1, hc.2]
+  case false =>
+    refine ⟨_, buildProj p.id p.pre p.post p.syn prePop postPop (wdOf p) (decRows cfg p),
+      [getById top p.syn, none], rfl, rfl, ?_, ?_, ?_⟩
+    · have hne : (decRows cfg p).isEmpty = false := by
+        have hl : (decRows cfg p).length = (encRows cfg p).length := by
+          simp [decRows, encRows, zipIdx_length]
+        cases hd : decRows cfg p with
+        | nil =>
+          rw [hd] at hl
+          rw [List.eq_nil_of_length_eq_zero hl.symm] at hemp
+          cases hemp
+        | cons _ _ => rfl
+      simp only [decodeProjLeaf, projHdr_chem, Bool.false_eq_true, if_false]
+      refine decodeProjBody_chem cfg top pops _ _ (decRows cfg p) _ rfl (decode_encRows cfg hh h1 h0 hu p hok) ?_
+      simp only [posGt_wd, chemItem, hne, hpre, hpost, Bool.false_eq_true, if_false]
+    · intro c hc
+      simp only [List.mem_cons, List.mem_nil_iff, or_false] at hc
+      rcases hc with hc | hc
+      · exact getById_mem hc.symm
+      · cases hc
+    · have hpid := findPop_id hpre
+      have hqid := findPop_id hpost
+      cases hwd : wdOf p
+      · have hw : p.connWDs = [] := by simpa [wdOf] using hwd
+        have hrows : decRows cfg p = zipIdx (fun i c => rowOf cfg.r (i : Nat) c (cfg.r 1) (cfg.r 0)) 0 p.conns := by
+          simp [decRows, hw, zipIdx]
+        have hall : ∀ d ∈ decRows cfg p, d.delay = 0 ∧ d.weight = 1 := by
+          intro d hd
+          rw [hrows] at hd
+          obtain ⟨i, c, _, rfl⟩ := mem_zipIdx _ _ hd
+          simp [rowOf, h1, h0]
+        simp only [buildProj, semProj, Bool.not_false, Bool.true_and]
+        rw [filter_all _ _ (fun d hd => by simp [(hall d hd).1, (hall d hd).2]),
+            filter_none _ _ (fun d hd => by simp [(hall d hd).1, (hall d hd).2])]
+        simp only [List.map_nil, List.append_nil, rProj, List.map_map, hw, hrows]
+        congr 1
+        apply map_zipIdx
+        intro i c hc
+        have hpl := hok.plain c hc
+        simp only [Function.comp, rowOf]
+        exact semConn_built cfg.r false p.pre p.post prePop postPop hpid hqid i c none ⟨0, .ms⟩ "" ""
+          (by intro h; cases h) (hok.refs c (by simp [hc])) ⟨(hok.chem c (by simp [hc])).1.symm, (hok.chem c (by simp [hc])).2.symm⟩
+          (by simp [hpl.1, h1]) (by simp [hpl.2, delayMsSem, h0])
+      · simp only [buildProj, semProj, Bool.not_true, Bool.false_and]
+        rw [filter_none (fun _ => false) _ (fun d _ => rfl), filter_all (fun _ => !false) _ (fun d _ => rfl)]
+        simp only [List.map_nil, List.nil_append, rProj, List.map_map, decRows, List.map_append]
+        congr 1
+        congr 1
+        · apply map_zipIdx
+          intro i c hc
+          have hpl := hok.plain c hc
+          simp only [Function.comp, rowOf]
+          exact semConn_built cfg.r false p.pre p.post prePop postPop hpid hqid i c (some (cfg.r 1)) ⟨cfg.r 0, .ms⟩ "" ""
+            (by intro h; cases h) (hok.refs c (by simp [hc])) ⟨(hok.chem c (by simp [hc])).1.symm, (hok.chem c (by simp [hc])).2.symm⟩
+            (by simp [hpl.1]) (by simp [hpl.2, delayMsSem])
+        · apply map_zipIdx
+          intro i c hc
+          obtain ⟨⟨w, hw⟩, hd⟩ := hok.wd c hc
+          simp only [Function.comp, rowOf]
+          exact semConn_built cfg.r false p.pre p.post prePop postPop hpid hqid i c (some (cfg.r (c.weight.getD 0)))
+            ⟨cfg.r (dval c.delay), .ms⟩ "" ""
+            (by intro h; cases h) (hok.refs c (by simp [hc])) ⟨(hok.chem c (by simp [hc])).1.symm, (hok.chem c (by simp [hc])).2.symm⟩
+            (by simp [hw]) (by simp [delayMsSem, (delayMs_ok hd).2])
+
+end NmlVerif.Hdf5
